@@ -38,13 +38,34 @@ def num(x):
     return fjson(frac_of_float(x))
 
 
+STR_IDS = False     # per case: identifiers are strings ("u12", "i105") in the dataset, queries and candidates
+
+
+def uid(x):
+    return f"u{x}" if STR_IDS and x is not None else x
+
+
+def iid(x):
+    return f"i{x}" if STR_IDS else x
+
+
+def back(x):
+    return int(str(x)[1:]) if STR_IDS else int(x)
+
+
+def id_array(ids):
+    if STR_IDS:
+        return np.array([iid(i) for i in ids], dtype=object) if len(ids) else np.array([], dtype=object)
+    return np.array(ids, dtype=np.int64)
+
+
 def build_dataset(case):
     dsb = DatasetBuilder()
-    dsb.add_entities("user", list(case["users"]))
-    dsb.add_entities("item", list(case["items"]))
+    dsb.add_entities("user", [uid(u) for u in case["users"]])
+    dsb.add_entities("item", [iid(i) for i in case["items"]])
     cols = {
-        "user_id": [r[0] for r in case["ratings"]],
-        "item_id": [r[1] for r in case["ratings"]],
+        "user_id": [uid(r[0]) for r in case["ratings"]],
+        "item_id": [iid(r[1]) for r in case["ratings"]],
         "rating": np.array([float(fparse(r[2])) for r in case["ratings"]], dtype=np.float32),
     }
     if case.get("timestamps"):
@@ -114,29 +135,31 @@ def make_query(q):
     if q["history"] is not None:
         ids = [h[0] for h in q["history"]]
         rs = np.array([float(fparse(h[1])) for h in q["history"]], dtype=np.float32)
-        hist = ItemList(item_ids=np.array(ids, dtype=np.int64), rating=rs)
+        hist = ItemList(item_ids=id_array(ids), rating=rs)
     form = q.get("form", "query")
     if form == "id" and q["user"] is not None and hist is None:
-        return q["user"]
+        return uid(q["user"])
     if form == "list" and q["user"] is None and hist is not None:
         return hist
-    return RecQuery(user_id=q["user"], user_items=hist)
+    return RecQuery(user_id=uid(q["user"]), user_items=hist)
 
 
-def make_cands(ids, extra, ordered):
+def make_cands(ids, extra, ordered, vocab=None):
     kw = {}
     if extra:
         kw["price"] = np.array([float(i % 7) + 0.5 for i in ids], dtype=np.float64)
         kw["tag"] = np.array([int(i) * 3 for i in ids], dtype=np.int64)
-    return ItemList(item_ids=np.array(ids, dtype=np.int64), ordered=bool(ordered), **kw)
+    if vocab is not None:      # candidates given by number against the dataset's own vocabulary (as candidate selectors do)
+        return ItemList(item_nums=vocab.numbers([iid(i) for i in ids]), vocabulary=vocab, ordered=bool(ordered), **kw)
+    return ItemList(item_ids=id_array(ids), ordered=bool(ordered), **kw)
 
 
 def err_kind(e):
     return "E:" + type(e).__name__
 
 
-def call(scorer, name, q, ids, extra=False, ordered=False):
-    cand = make_cands(ids, extra, ordered)
+def call(scorer, name, q, ids, extra=False, ordered=False, vocab=None):
+    cand = make_cands(ids, extra, ordered, vocab)
     try:
         if name == "popularity":
             res = scorer(cand)
@@ -147,7 +170,7 @@ def call(scorer, name, q, ids, extra=False, ordered=False):
     o = {"error": None, "type": type(res).__name__}
     if not isinstance(res, ItemList):
         return o
-    o["ids"] = [int(i) for i in res.ids().tolist()]
+    o["ids"] = [back(i) for i in res.ids().tolist()]
     sc = res.scores()
     o["scores"] = None if sc is None else [num(x) for x in sc.tolist()]
     o["len"] = len(res)
@@ -158,16 +181,18 @@ def call(scorer, name, q, ids, extra=False, ordered=False):
         o["tag"] = None if t is None else [int(x) for x in t.tolist()]
     # the caller's list must not have acquired a score
     o["input_scored"] = cand.scores() is not None
-    o["input_ids"] = [int(i) for i in cand.ids().tolist()]
+    o["input_ids"] = [back(i) for i in cand.ids().tolist()]
     return o
 
 
 def run(case):
+    global STR_IDS
     setup()
+    STR_IDS = case.get("ids") == "str"
     ds = build_dataset(case)
     name = case["scorer"]["scorer"]
     scorer = make_scorer(case["scorer"])
-    obs = {"users": ds.users.ids().tolist(), "items": ds.items.ids().tolist()}
+    obs = {"users": [back(u) for u in ds.users.ids().tolist()], "items": [back(i) for i in ds.items.ids().tolist()]}
     try:
         scorer.train(ds, TrainingOptions(rng=case["seed"]))
     except Exception as e:
@@ -178,12 +203,14 @@ def run(case):
     calls = []
     for q in case["queries"]:
         ids = q["items"]
-        c = {"base": call(scorer, name, q, ids, extra=q.get("extra", False), ordered=q.get("ordered", False))}
-        c["repeat"] = call(scorer, name, q, ids, extra=q.get("extra", False), ordered=q.get("ordered", False))
+        known = set(case["items"])
+        vocab = ds.items if q.get("by_number") and ids and all(i in known for i in ids) else None
+        c = {"base": call(scorer, name, q, ids, extra=q.get("extra", False), ordered=q.get("ordered", False), vocab=vocab)}
+        c["repeat"] = call(scorer, name, q, ids, extra=q.get("extra", False), ordered=q.get("ordered", False), vocab=vocab)
         perm = [ids[j] for j in q["perm"]]
         c["perm"] = call(scorer, name, q, perm)
         h = q["split"]
-        c["half_a"] = call(scorer, name, q, ids[:h])
+        c["half_a"] = call(scorer, name, q, ids[:h], vocab=vocab if ids[:h] else None)
         c["half_b"] = call(scorer, name, q, ids[h:])
         c["again"] = call(scorer, name, q, ids)          # after the other calls: the model is unchanged
         calls.append(c)
